@@ -452,6 +452,14 @@ def _wrap_draw(cls, obs):
     cls.draw = draw
 
 
+def _has_boundary_inversion(prop):
+    rep = getattr(prop, "_reparameterisation", None)
+    try:
+        return any(bool(getattr(r, "boundary_inversion", False)) for r in rep.values())
+    except Exception:
+        return True
+
+
 def _wrap_populate(cls, obs):
     orig = cls.populate
 
@@ -492,6 +500,8 @@ def _wrap_populate(cls, obs):
                 and type(self).__name__ == "FlowProposal"   # (augmented / clustering flows are not invertible point-wise)
                 # reparameterisations with auxiliary parameters (angle + radius) re-draw them in the forward pass
                 and getattr(self, "rescaled_dims", None) == obs.model.dims
+                # boundary inversion maps one x to several x': not invertible point-wise either
+                and not _has_boundary_inversion(self)
                 and getattr(self, "flow", None) is not None):
             obs.in_observer = True
             try:
